@@ -20,6 +20,10 @@ type Run struct {
 	// profiler that has one extra file (go build -overlay) — the way to hand the function hashes that
 	// SHA-256 will not produce on demand (common prefixes, the empty string of the swallowed error).
 	Hash *string `json:"hash,omitempty"`
+	// LongName runs the profiler on a copy of the binary whose base name has 242 bytes: the name of the
+	// cache file still fits into NAME_MAX, the name of a temporary file next to it does not.  Such runs are
+	// checked against the property only (a normal run yields the cold-cache profile or fails).
+	LongName bool `json:"long_name,omitempty"`
 }
 
 type History struct {
@@ -128,7 +132,11 @@ func parseSched(s string) (kind string, j int) {
 }
 
 func (c *cacheRig) run(r Run) procResult {
-	os.WriteFile(c.target, c.content(r.Variant), 0o755)
+	target := c.target
+	if r.LongName {
+		target = filepath.Join(filepath.Dir(c.target), strings.Repeat("n", 238)+"-tgt")
+	}
+	os.WriteFile(target, c.content(r.Variant), 0o755)
 	os.RemoveAll(c.ctl)
 	os.MkdirAll(c.ctl, 0o777)
 	os.WriteFile(filepath.Join(c.ctl, "listing"), []byte(c.listings[r.Variant]), 0o644)
@@ -163,7 +171,7 @@ func (c *cacheRig) run(r Run) procResult {
 	if r.Hash != nil {
 		return c.e.runBinary(c.direct, []string{"VPROF_DIRECT=1", "VPROF_BINARY=" + c.target, "VPROF_HASH=" + *r.Hash}, c.home, path, c.ctl, nil, killAt, fsize)
 	}
-	return c.e.runBinary(c.e.profiler, nil, c.home, path, c.ctl, []string{"-format", "config", c.target}, killAt, fsize)
+	return c.e.runBinary(c.e.profiler, nil, c.home, path, c.ctl, []string{"-format", "config", target}, killAt, fsize)
 }
 
 // cacheState classifies the final cache path.
@@ -260,6 +268,10 @@ func runCache(e *env, replayCases []string) error {
 			hs = append(hs, History{Runs: []Run{{Variant: smallVariant, Sched: fmt.Sprintf("kill:%d", j)}, {Variant: smallVariant, Sched: "ok"}}})
 			hs = append(hs, History{Runs: []Run{{Variant: smallVariant, Sched: fmt.Sprintf("fail:%d", j)}, {Variant: smallVariant, Sched: "ok"}}})
 		}
+		for _, j := range []int{1, 3, 5} {
+			hs = append(hs, History{Runs: []Run{{Variant: 0, Sched: fmt.Sprintf("kill:%d", j), LongName: true}, {Variant: 0, Sched: "ok", LongName: true}}})
+		}
+		hs = append(hs, History{Runs: []Run{{Variant: 0, Sched: "fail:2", LongName: true}, {Variant: 0, Sched: "ok", LongName: true}}})
 		hs = append(hs, History{Runs: []Run{{Variant: 0, Sched: "missing"}, {Variant: 0, Sched: "ok"}}})
 		hs = append(hs, History{Runs: []Run{{Variant: 0, Sched: "ok"}, {Variant: 0, Sched: "ok"}}})
 		hs = append(hs, History{Runs: []Run{{Variant: 0, Sched: "ok"}, {Variant: 1, Sched: "kill:3"}, {Variant: 1, Sched: "ok"}, {Variant: 0, Sched: "ok"}}})
@@ -288,9 +300,13 @@ func runCache(e *env, replayCases []string) error {
 				direct, nontrivial = true, true
 				e.tag("direct-call")
 			}
+			if r.LongName {
+				direct = true
+				e.tag("binary-name-of-242-bytes")
+			}
 		}
 		e.count(string(hj), nontrivial)
-		reply := "(direct call of doObjdump with a given hash: property only)"
+		reply := "(direct call of doObjdump with a given hash, or a binary whose temporary file name exceeds NAME_MAX: property only)"
 		want := make([]string, len(h.Runs))
 		if !direct {
 			var err error
